@@ -9,6 +9,9 @@ use std::ops::Bound;
 use lsmtk::{KeyValueStore, LsmtkOptions};
 use sst::Cursor;
 
+/// class of known finding D-28 (see `Sim::verifier_reject_class`)
+pub const D28: &str = "sst-removed-recreated-removed-across-fragments";
+
 pub type Ent = (Vec<u8>, u64, Option<Vec<u8>>); // key, timestamp, value | tombstone
 
 #[derive(Clone, Debug)]
@@ -263,6 +266,8 @@ pub struct Sim {
     pub verifier_backoffs: u64,
     /// what the last verifier pass returned: "ok", "backoff:<name>" or "error:<text>"
     pub last_verify: String,
+    /// the whole text of the error the last verifier pass returned (empty otherwise)
+    pub last_verify_full: String,
     /// manifest history as the harness saw it: per fragment file name the number of edits already
     /// recorded, and per SST digest the (edit ordinal, '+'|'-') events in order
     /// what the observer saw at the labelled points inside flushes and compactions: complaints
@@ -362,7 +367,7 @@ impl Sim {
     pub fn open(root: &str, cfg: &Cfg) -> Result<Sim, String> {
         let opts = cfg.options(root);
         let kvs = KeyValueStore::open(opts).map_err(|e| err_class(&e))?;
-        Ok(Sim { root: root.to_string(), cfg: cfg.clone(), kvs: Some(kvs), oracle: BTreeMap::new(), flushes: 0, compactions: 0, reopens: 0, stalled_unselectable: 0, verifier_passes: 0, verifier_backoffs: 0, last_verify: String::new(), probe_failures: vec![], probes_run: 0, frag_seen: BTreeMap::new(), sst_events: BTreeMap::new(), edit_ordinal: 0, chosen: vec![] })
+        Ok(Sim { root: root.to_string(), cfg: cfg.clone(), kvs: Some(kvs), oracle: BTreeMap::new(), flushes: 0, compactions: 0, reopens: 0, stalled_unselectable: 0, verifier_passes: 0, verifier_backoffs: 0, last_verify: String::new(), last_verify_full: String::new(), probe_failures: vec![], probes_run: 0, frag_seen: BTreeMap::new(), sst_events: BTreeMap::new(), edit_ordinal: 0, chosen: vec![] })
     }
 
     pub fn kvs(&self) -> &KeyValueStore {
@@ -500,6 +505,10 @@ impl Sim {
             Ok(mut v) => v.verify(),
             Err(e) => Err(e),
         };
+        self.last_verify_full = match &r {
+            Err(e) => format!("{:?}", e),
+            Ok(()) => String::new(),
+        };
         self.last_verify = match r {
             Ok(()) => "ok".to_string(),
             Err(e) => match lsmtk::backoff_path(&e) {
@@ -540,6 +549,38 @@ impl Sim {
                 }
             },
         };
+    }
+
+    /// The class of a verifier pass that returned an error on a store history (C01, C04, C08).
+    /// Known finding D-28: the error is NotFound for `trash/<X>.sst` and the manifest removed X,
+    /// added it again (a compaction wrote a byte-identical file) and removed it again — the
+    /// verifier gave the one copy in trash/ to the first removal and the checks of the fragments
+    /// that add X back and remove it again cannot read it.
+    pub fn verifier_reject_class(&self) -> String {
+        let t = &self.last_verify_full;
+        if t.contains("NotFound") {
+            if let Some(i) = t.find("trash/") {
+                let name: String = t[i + 6..].chars().take_while(|c| c.is_ascii_hexdigit()).collect();
+                if name.len() == 64 && t[i + 6 + 64..].starts_with(".sst") {
+                    if let Some(evs) = self.sst_events.get(&name) {
+                        let signs: Vec<char> = evs.iter().map(|e| e.1).collect();
+                        let mut stage = 0;
+                        for c in signs {
+                            stage = match (stage, c) {
+                                (0, '-') => 1,
+                                (1, '+') => 2,
+                                (2, '-') => 3,
+                                (s, _) => s,
+                            };
+                        }
+                        if stage == 3 {
+                            return D28.to_string();
+                        }
+                    }
+                }
+            }
+        }
+        "verifier-rejects-store-history".to_string()
     }
 
     /// record the manifest edits written since the last call (fragments are append-only and a
